@@ -18,7 +18,8 @@ RULE = ("inner queries from a shape grammar (aliased terms in WHERE / GROUP BY /
         "nested subqueries to depth 3, set operations (with own ORDER BY / LIMIT), limit/offset, joins, scalar subqueries as terms of "
         "SELECT/WHERE/GROUP BY/HAVING/ORDER BY, inner CTEs, USING joins, index hints, PREWHERE, ROLLUP, FOR UPDATE; exhaustive over the single-feature shapes, seeded random "
         "combinations on top) x 12 embedding positions x six dialect classes x {inline, parameterised}. non-trivial = the inner "
-        "query carries at least one alias or a nested query; distinct = (shape, position, dialect, mode)")
+        "query carries at least one alias or a nested query; distinct = (shape, position, dialect, mode)"
+        " also: correlated inner queries, DML CTE bodies with RETURNING, template-looking constants; an embedding that raises while the query renders alone is a violation. (DESIGN.md 6a)")
 ASSUMPTIONS = ["token-level comparison with the dialect's reference lexer; placeholders compare by kind (PostgreSQL numbering is C04's subject)"]
 ANCHORS = ["QueryBuilder.get_sql", "QueryBuilder._from_sql", "Join.get_sql", "QueryBuilder._with_sql", "_SetOperation.get_sql",
            "ContainsCriterion.get_sql", "QueryBuilder._select_sql", "QueryBuilder._where_sql", "QueryBuilder._group_sql",
